@@ -9,7 +9,7 @@ from typing import Any
 
 from harness import c02_util as U
 from harness.common import VERIF, Ck, coq_list, coq_str
-from translate import c02_tables, c03_basetok, c03_kvparse
+from translate import c02_hstring, c02_tables, c03_basetok, c03_errfmt, c03_kvparse
 
 MANIFEST = dict(
     technique='Rocq proof (generic chunked-reader = flat-reader simulation for every reader program; totality, progress, '
@@ -31,19 +31,30 @@ MANIFEST = dict(
          'census of the source says (five named obligations + "no unguarded indexing/conversion/unknown call on the parse path" + '
          '"every error message formats with the arguments passed"), then for every token stream and every text nothing but '
          'KeyValError leaves the parser; each foreign exit needs its own guard to be missing. '
-         'Correspondences on every run: tokenizer model vs real Tokenizer on every string over a 23-symbol alphabet (quick: length 2 x '
-         'all 128 option vectors + length 3 x 32 vectors; thorough: length 3 x 128 + length 4 x 16), random texts, reader state after '
+         'Error texts (round 3): format_exc_fileinfo (= TokenSyntaxError.__str__) and the messages BaseTokenizer.error builds per token are '
+         'read from the source by path enumeration; under named conditions on the generated pieces formatting never fails, the text '
+         'starts with the message and shows the line number and the file name, every Token member has a message, and the text of the '
+         'error a run ends with is the same for every chunking. Keyvalues.parse installs KeyValError on the tokenizer on every path '
+         '(census obligation; the parser model calls every tokenizer error a KeyValError). '
+         'The premise of the chunk-independence theorem is itself read from the source: outside __init__ and _next_char no method of '
+         'Tokenizer touches _cur_chunk/_char_index/_chunk_iter except by `self._char_index -= 1`, never twice without a read (census '
+         'obligations tokenizer_sees_chunks_only_through_next_char / tokenizer_pushes_back_only_after_a_read). '
+         'Correspondences on every run: tokenizer model vs real Tokenizer on every string over a 23-symbol alphabet up to length 3 x '
+         'all 128 option vectors in both tiers (implementation runs shared between option vectors that agree on every option a run '
+         'read; thorough also length 4 x 16), random texts, reader state after '
          'every call; BaseTokenizer model vs the real class on every sequence of up to 4 (5) of 12 public operations on 5 sources '
          '(result, _pushback list, line_num after each); parser model vs Keyvalues.parse outcome class on every token list over 9 '
-         'tokens up to length 4 (5) x 16 option vectors through IterTokenizer, every text over 13 symbols up to length 3 (4), '
+         'tokens up to length 4 (5) x 16 option vectors (+ one length deeper for 1 (2) vectors) through IterTokenizer, every text over '
+         '13 symbols up to length 3 (4), error texts of every Token member x value x file name x line; '
          'structured random token streams and texts. The implementation alone is checked for chunked == unchunked on all cut sets, '
          'foreign exceptions, EOF for ever, the read bound, and delivery = plain stream under peeks and push-backs.',
     note='Trusted: Coq kernel + vm_compute (incl. primitive Uint63 for checksums), the translators (c02_tables, c03_kvparse, '
-         'c03_basetok), the hand models Text/Tokenizer.v, Text/BaseTok.v (helper loops) and Text/KvErrModel.v (tied by the exhaustive '
+         'c03_basetok, c03_errfmt, c02_hstring), the hand models Text/Tokenizer.v, Text/BaseTok.v (helper loops) and Text/KvErrModel.v (tied by the exhaustive '
          'differential runs), CPython str/casefold. The parser model abstracts the tree to "child list empty or not" (exact for the '
          'outcome class; the tree itself is C01\'s subject) and consumes the logical token list (push_back = not consumed). '
-         'FLAGS_DEFAULT entries that depend on the platform are read from the running interpreter. File names and message texts '
-         'are outside the models (errors are identified by site / message prefix). Cython twin not covered.',
+         'FLAGS_DEFAULT entries that depend on the platform are read from the running interpreter. The literal message texts of the '
+         'individual error sites are outside the models (errors are identified by site / message prefix; the text model is generic over '
+         'them). Tokenizer built from an iterator of non-str chunks (documented ValueError) is outside the property. Cython twin not covered.',
 )
 
 SYN_ALPHA = ['"', '\\', '/', '*', '{', '}', '[', ']', '(', ')', '#', ':', '+', '=', ',', '\r', '\n', ' ', 'a', 'n', '\ufeff', "'", ';']
@@ -122,6 +133,132 @@ def _impl_shard(job) -> tuple[int, int, dict, int, list]:
     return tot, cnt, hist, ocnt, bad
 
 
+# ---- sharing the implementation runs across option vectors that cannot differ on a given text
+_TRACKED: list = []
+
+
+def _tracked_cls():
+    """Subclass of the real Tokenizer whose seven option attributes are properties recording every READ (bit i of
+    `_opt_reads` = OPTION_NAMES[i]); __init__'s writes go to private slots.  Two option vectors that agree on every option
+    read during a run follow the same execution path (the code is deterministic and reaches the options only through
+    these attributes), so the run of one IS the run of the other."""
+    if not _TRACKED:
+        from srctools.tokenizer import Tokenizer
+
+        class TrackedTokenizer(Tokenizer):
+            _opt_reads = 0
+
+        def mk(i: int, nme: str) -> property:
+            slot = '_opt_' + nme
+
+            def get(self):
+                self._opt_reads |= 1 << i
+                return self.__dict__[slot]
+
+            def put(self, v) -> None:
+                self.__dict__[slot] = v
+            return property(get, put)
+        for i, nme in enumerate(U.OPTION_NAMES):
+            setattr(TrackedTokenizer, nme, mk(i, nme))
+        _TRACKED.append(TrackedTokenizer)
+    return _TRACKED[0]
+
+
+def impl_results_tracked(data: Any, bits: int, ncalls: int) -> tuple[list[int], int]:
+    """U.impl_results on the tracked subclass: (encoded trace, bit mask of the options read, construction included)."""
+    from srctools.tokenizer import TokenSyntaxError
+    tk = _tracked_cls()(data, None, **U.opts_of_bits(bits))
+    out: list[int] = []
+    for _ in range(ncalls):
+        try:
+            t, v = tk()
+        except TokenSyntaxError as e:
+            i, args = U.err_code(e.mess)
+            ln = e.line_num if isinstance(e.line_num, int) else 0
+            out += [2, i, ln, len(args), *args]
+            if type(e) is not TokenSyntaxError or ln != tk.line_num:
+                out += [4, 1]
+            break
+        except BaseException as e:  # noqa: BLE001 - the property says nothing else may escape
+            out += [4, 0, *map(ord, type(e).__name__)]
+            break
+        out += [1, t.value, tk.line_num, int(tk._last_was_cr), len(v), *map(ord, v)]
+    return out, tk._opt_reads
+
+
+NGROUPS = 16          # option vectors 8g .. 8g+7 form group g (one Coq checksum per group)
+
+
+def _impl_shard_shared(job) -> tuple[list[int], int, dict, int, list, int, int, dict]:
+    """All 128 option vectors for the texts `pre + w`, |w| <= k, (pre, k) in the job: a vector is EXECUTED only if no executed vector agrees
+    with it on every option that run read; otherwise its trace is that run's trace.  Per text one derived vector
+    (pseudo-random) is executed anyway and compared (spot check of the independence argument).  The chunking oracle runs for
+    every executed vector (all cut sets up to `full_cuts` characters, beyond that the finest cut with empty chunks, the line
+    split and one pseudo-random cut set); a chunked run that reads an option the flat run did not read makes the oracle
+    run for every vector of that class.  Returns per-group checksums."""
+    pres, full_cuts = job
+    tots = [0] * NGROUPS
+    cnt = ocnt = real = spot_bad = 0
+    hist: dict[str, int] = {}
+    classes: dict[int, int] = {}
+    bad: list = []
+    for s in (pre + w for pre, k in pres for w in U.strings_upto(SYN_ALPHA, k)):
+        cuts = list(chunkings(s))
+        if len(s) <= full_cuts:
+            alts = cuts[1:] + ([with_empties(cuts[-1])] if s else [['', '']])
+        else:
+            alts = [with_empties(cuts[-1]), cuts[1 + (hash_small(s) % (len(cuts) - 1))]]
+        lines = s.splitlines(keepends=True)
+        if lines and lines not in alts and lines != [s]:
+            alts.append(lines)
+        nc = len(s) + 2
+        head = [len(s), *map(ord, s)]
+        entries: list[list] = []            # [mask, vals, ref, outcome, oracle_for_all]
+        spot = 1 + hash_small(s) % 127
+
+        def oracle(bits: int, mask: int, ref: list[int]) -> int:
+            nonlocal ocnt
+            extra = 0
+            for cs in alts:
+                ocnt += 1
+                got, rd = impl_results_tracked(iter(cs), bits, nc)
+                extra |= rd & ~mask
+                if got != ref and len(bad) < 50:
+                    bad.append(('chunk-dependence', s, bits, cs))
+            return extra
+        for bits in range(128):
+            ent = None
+            for e in entries:
+                if bits & e[0] == e[1]:
+                    ent = e
+                    break
+            if ent is None:
+                ref, mask = impl_results_tracked(s, bits, nc)
+                real += 1
+                k = _outcome(ref)
+                ent = [mask, bits & mask, ref, k, False]
+                entries.append(ent)
+                if k == 'foreign':
+                    bad.append(('foreign-exception', s, bits, None))
+                elif k == 'eof' and (ref[-5:] != [1, 0, ref[-3], ref[-2], 0] or ref[-10:-5] != ref[-5:]):
+                    bad.append(('EOF-not-for-ever', s, bits, None))
+                if len(bad) < 50 and oracle(bits, mask, ref):
+                    ent[4] = True
+            else:
+                if bits == spot:
+                    real += 1
+                    if U.impl_results(s, bits, nc) != ent[2]:
+                        spot_bad += 1
+                if ent[4] and len(bad) < 50:
+                    oracle(bits, 127, ent[2])
+            ref = ent[2]
+            tots[bits >> 3] = (tots[bits >> 3] + U.hash_list([bits, *head, *ref])) & U.M63
+            cnt += 1
+            hist[ent[3]] = hist.get(ent[3], 0) + 1
+        classes[len(entries)] = classes.get(len(entries), 0) + 1
+    return tots, cnt, hist, ocnt, bad, real, spot_bad, classes
+
+
 def hash_small(s: str) -> int:
     h = 7
     for c in s:
@@ -147,48 +284,113 @@ _REP_SET = frozenset(REPRESENTATIVE_BITS)
 QUICK_BITS = REPRESENTATIVE_BITS + [3, 5, 6, 9, 10, 12, 17, 20, 24, 33, 40, 48, 65, 68, 80, 96]    # + 16 pairs of options
 
 
-def corr_exhaustive(ck: Ck, escalate: bool) -> None:
+def shared_jobs(n: int, full_cuts: int, per_job: int = 1) -> list:
+    """Partition of all texts up to length n (n >= 2) into jobs for _impl_shard_shared: the texts shorter than 2, and one
+    (prefix, n - 2) pair per two-symbol prefix, `per_job` prefixes to a job."""
+    pairs = [(a + b, n - 2) for a in SYN_ALPHA for b in SYN_ALPHA]
+    return [([('', 1)], full_cuts)] + [(pairs[i:i + per_job], full_cuts) for i in range(0, len(pairs), per_job)]
+
+
+def run_shared(ck: Ck, n: int, full_cuts: int) -> tuple[list[int], int, dict, list, int, int, dict] | None:
+    """Implementation side of one exhaustive scope with the runs shared across option vectors (None: the spot check failed,
+    the independence argument does not hold for this source and the caller must execute every vector)."""
+    parts = U.pool_map(_impl_shard_shared, shared_jobs(n, full_cuts, 23 if n <= 3 else 8), workers=14)
+    if any(p[6] for p in parts):
+        ck.notes.append('option-read tracking: a vector derived from a run that read none of the options it differs in gave a different '
+                        'trace when executed (options are reached other than through the seven attributes?): every vector is executed instead')
+        return None
+    tots = [0] * NGROUPS
+    hist: dict[str, int] = {}
+    classes: dict[int, int] = {}
+    for p in parts:
+        for g in range(NGROUPS):
+            tots[g] = (tots[g] + p[0][g]) & U.M63
+        for k, v in p[2].items():
+            hist[k] = hist.get(k, 0) + v
+        for k, v in p[7].items():
+            classes[k] = classes.get(k, 0) + v
+    return tots, sum(p[1] for p in parts), hist, [(p[3], p[4]) for p in parts], sum(p[5] for p in parts), sum(p[3] for p in parts), classes
+
+
+GROUPS8 = [ALL_BITS[i:i + 8] for i in range(0, 128, 8)]
+LEN4_GROUPS = [0, 15]          # vectors 0..7 and 120..127
+
+
+def start_exhaustive_model(ck: Ck):
+    """Start the model side of the length-3 scope (16 coqc processes, one per group of 8 option vectors) in the background, so
+    that it overlaps with the sequential Print Assumptions / instance obligation runs.  Returns (executor, future)."""
     alpha = [ord(c) for c in SYN_ALPHA]
-    # quick: length <= 2 x all 128 option vectors and length <= 3 x 32 option vectors (every option alone on / alone off and 16
-    # pairs); thorough or escalated: length <= 3 x all 128 (every cut set); thorough also length <= 4 x 16 representative vectors.
-    big = ck.thorough or escalate
-    full_cuts = 3 if big else 2
-    if big:
-        phases = [(3, [ALL_BITS[i:i + 8] for i in range(0, 128, 8)], full_cuts)]
-    else:
-        phases = [(2, [ALL_BITS[i:i + 16] for i in range(0, 128, 16)], 2), (3, [QUICK_BITS[i:i + 2] for i in range(0, 32, 2)], 2)]
-    if ck.thorough:
-        phases.append((4, [[b] for b in REPRESENTATIVE_BITS], 2))
-    bad = []
-    ncases = 0
-    oracle_parts = []
-    for n, groups, fc in phases:
-        jobs = [[f'tok_shard_hash {U.coq_chars(g)} [] {U.coq_chars(alpha)} {n}'] for g in groups]
-        with ThreadPoolExecutor(1) as ex:         # the model side (coqc processes) runs while the implementation side is computed
-            fut = ex.submit(U.coq_eval_many, ck, jobs, f'c03exh{n}', timeout=840, workers=14)
-            totals = U.pool_map(_impl_shard, [(g, n, fc) for g in groups], workers=14)
+    jobs = [[f'tok_shard_hash {U.coq_chars(g)} [] {U.coq_chars(alpha)} 3'] for g in GROUPS8]
+    ex = ThreadPoolExecutor(1)
+    return ex, ex.submit(U.coq_eval_many, ck, jobs, 'c03exh3', timeout=840, workers=8)
+
+
+def corr_exhaustive(ck: Ck, escalate: bool, started=None) -> None:
+    """Every string over the syntax alphabet up to length 3 x ALL 128 option vectors in both tiers (thorough also length 4 x 16).
+    The model side evaluates every (text, vector) pair inside Coq.  The implementation side executes, per text, only vectors
+    that differ from every executed one in an option that run actually read (recorded by properties on a subclass) and
+    copies the trace for the others - quick tier and the length-4 scope; the thorough tier executes all 128 vectors up to
+    length 3, which also validates the sharing."""
+    alpha = [ord(c) for c in SYN_ALPHA]
+    full_cuts = 3 if (ck.thorough or escalate) else 2
+    bad: list = []
+    ncases = nreal = 0
+    oracle_parts: list = []
+    scopes = [(3, not ck.thorough)] + ([(4, True)] if ck.thorough else [])
+    for n, share in scopes:
+        # length 3: all 16 groups of 8 vectors.  length 4 (thorough): the model side is evaluated for two groups = 16 vectors (every
+        # option on and off, the three string options in all combinations), 24 prefix shards per group so that it spreads over the cores.
+        groups = list(range(NGROUPS)) if n == 3 else LEN4_GROUPS
+        shards = [([], n)] if n == 3 else [([], 0)] + [([a], n - 1) for a in alpha]
+        jobs = [[f'tok_shard_hash {U.coq_chars(GROUPS8[g])} {U.coq_chars(pre)} {U.coq_chars(alpha)} {k}'] for g in groups for pre, k in shards]
+        with (started[0] if (n == 3 and started) else ThreadPoolExecutor(1)) as ex:   # the model side (coqc processes) runs while the implementation side is computed
+            fut = started[1] if (n == 3 and started) else ex.submit(U.coq_eval_many, ck, jobs, f'c03exh{n}', timeout=840, workers=14)
+            sh = run_shared(ck, n, full_cuts if n == 3 else 2) if share else None
+            if sh is not None:
+                tots, cnt, hist, oparts, real, _oc, classes = sh
+                for k, v in classes.items():
+                    ck.hist(f'corr_exhaustive_len{n}_executed_vectors_per_text', k, v)
+            else:
+                totals = U.pool_map(_impl_shard, [(GROUPS8[g], n, full_cuts if n == 3 else 2) for g in groups], workers=14)
+                tots = [0] * NGROUPS
+                for g, t_ in zip(groups, totals):
+                    tots[g] = t_[0]
+                cnt = real = sum(t[1] for t in totals)
+                hist = {}
+                for t_ in totals:
+                    for k, v in t_[2].items():
+                        hist[k] = hist.get(k, 0) + v
+                oparts = [(t_[3], t_[4]) for t_ in totals]
             res = fut.result()
-        oracle_parts += [(t[3], t[4]) for t in totals]
-        for g, r, (tot, cnt, hist, _oc, _ob) in zip(groups, res, totals):
-            ck.count('corr_exhaustive_cases', cnt)
-            ncases += cnt
-            for k, v in hist.items():
-                ck.hist('corr_exhaustive_outcome', k, v)
-            if r is None or U.parse_int63(r[0]) != tot:
-                bad.append(g)
+        if sh is not None and n != 3:
+            cnt = cnt * len(groups) // NGROUPS          # cases compared with the model (the shared runs cover all 128 vectors)
+        if n == 3:
+            oracle_parts = oparts
+        else:
+            oracle_parts = oracle_parts + oparts
+        ck.count('corr_exhaustive_cases', cnt)
+        ck.count('corr_exhaustive_cases_executed_on_the_implementation', real)
+        ncases += cnt
+        nreal += real
+        for k, v in hist.items():
+            ck.hist('corr_exhaustive_outcome', k, v)
+        for j, g in enumerate(groups):
+            rs = res[j * len(shards):(j + 1) * len(shards)]
+            if any(r is None for r in rs) or sum(U.parse_int63(r[0]) for r in rs) & U.M63 != tots[g]:
+                bad.append(GROUPS8[g])
     ck.extra['_oracle_from_corr'] = oracle_parts
-    ck.extra['_oracle_scope'] = (3, full_cuts) if big else (3, 2, 'quick')
+    ck.extra['_oracle_scope'] = (3, full_cuts)
     detail = ''
     if bad:
         detail = _locate(ck, bad[0], alpha)
         ck.tie_broken.append('correspondence Tokenizer vs Text/Tokenizer.v (exhaustive small scope)')
-    scope = (f'all strings over the {len(SYN_ALPHA)}-symbol syntax alphabet up to length 3 x all 128 option vectors' if big else
-             f'all strings over the {len(SYN_ALPHA)}-symbol syntax alphabet up to length 2 x all 128 option vectors and up to length 3 x 32 '
-             f'option vectors (each option alone on / alone off, 16 pairs)') + \
-            (' and up to length 4 x 16 representative option vectors' if ck.thorough else '')
+    scope = f'all strings over the {len(SYN_ALPHA)}-symbol syntax alphabet up to length 3 x all 128 option vectors' + \
+            (' and up to length 4 x 16 vectors (0..7, 120..127)' if ck.thorough else '')
     ck.obligation('correspondence:tokenizer_exhaustive', not bad,
-                  f'real Tokenizer vs model: {scope} ({ncases} cases; token kind, value, line_num, _last_was_cr, error '
-                  f'site/argument/line; len+2 calls): ' + ('agree' if not bad else f'{len(bad)} option groups disagree; {detail}'))
+                  f'real Tokenizer vs model: {scope} ({ncases} cases, every one evaluated by the model; {nreal} executed on the implementation, '
+                  f'the others are vectors that agree with an executed vector on every option that run read - reads recorded by properties, one '
+                  f'such vector per text re-executed as a spot check; token kind, value, line_num, _last_was_cr, error site/argument/line; '
+                  f'len+2 calls): ' + ('agree' if not bad else f'{len(bad)} option groups disagree; {detail}'))
 
 
 def _locate(ck: Ck, bitsl: list[int], alpha: list[int]) -> str:
@@ -314,7 +516,7 @@ def _impl_chk_trace(bits: int, whole: bool, cs: list[str]) -> list[int]:
             t, v = tk()
         except TokenSyntaxError as e:
             i, args = U.err_code(e.mess)
-            out += [2, i, e.line_num, len(args), *args, tk._char_index + 1, len(tk._cur_chunk)]
+            out += [2, i, e.line_num if type(e.line_num) is int else 0, len(args), *args, tk._char_index + 1, len(tk._cur_chunk)]
             break
         except Exception as e:  # noqa: BLE001 - never matches the model
             out += [4, 0, *map(ord, type(e).__name__)]
@@ -503,7 +705,7 @@ def corr_kvparse(ck: Ck, escalate: bool) -> None:
     rng = ck.rng
     # ---- (1) exhaustive token level
     n_all, n_deep = (5, 6) if big else (4, 5)
-    deep_bits = [2, 10, 6, 3] if big else [2, 10]
+    deep_bits = [2, 10] if big else [2]        # vectors at the deeper length (CPU budget on the shared machine; round 2 had 4 / 2)
     tjobs = [(b, 0, n_all) for b in range(16)] + [(b, 0, n_deep) for b in deep_bits] + [(2, 1, n_all), (10, 1, n_all)]
     alpha = coq_list(f'({v}, {coq_str(sv)})' for v, sv in KV_TOK_ALPHA)
     cjobs = [[f'hfin (hash_list (kv_tokens_shard [{b}] {coq_flags(KV_FLAGSETS[fs])} {alpha} {n}))'] for b, fs, n in tjobs]
@@ -834,6 +1036,167 @@ def _bt_locate(ck: Ck, kind: str) -> str:
                     return f'first: source={kind} ops={d["ops"]} impl={imp} model={m}'
     return 'disagreement only at length >= 4'
 
+# ------------------------------------------------------------------------------------------------ error texts
+EF_IMPORTS = ['Coq.Lists.List', 'Coq.NArith.NArith', 'SV.Text.Str', 'SV.Text.ErrFmt', 'SV.Text.ErrFmtGen']
+
+
+def _opt(x, f) -> str:
+    return 'None' if x is None else f'(Some {f(x)})'
+
+
+def _enc_opt(fn) -> list[int]:
+    """Encoded as ErrFmtGen.enc_opt: [1, chars...] for a text, [0] if anything is raised."""
+    try:
+        return [1, *map(ord, fn())]
+    except Exception:  # noqa: BLE001 - the model's None
+        return [0]
+
+
+def corr_errfmt(ck: Ck) -> None:
+    """Model of the error texts (pieces regenerated from the source) vs the implementation: format_exc_fileinfo and
+    str(TokenSyntaxError(...)) on every combination of 6 messages x 5 file values x 14 line values; error(Token.X [, value]).mess
+    and str(error(...)) for every Token member x 4 values x 3 file names x 4 lines, through Tokenizer and IterTokenizer."""
+    from srctools.tokenizer import IterTokenizer, Token, Tokenizer, TokenSyntaxError, format_exc_fileinfo
+    rng = ck.rng
+    msgs = ['', 'm', 'Unexpected "}" character!', 'two\nlines', 'braces {} {0}', 'unicode \u00e9\U0001F600']
+    files = [None, '', 'f.vmf', 'dir/a "b".txt', 'x' * 40]
+    lines = [None, 0, 1, 9, 10, 11, 99, 100, 101, 65535, 10 ** 9, 10 ** 18 + 7, 10 ** 30, rng.randrange(10 ** 6)]
+    fi = [(m, f, ln) for m in msgs for f in files for ln in lines]
+    got_fi = []
+    for m, f, ln in fi:
+        a = _enc_opt(lambda: format_exc_fileinfo(m, f, ln))
+        b = _enc_opt(lambda: str(TokenSyntaxError(m, f, ln)))
+        got_fi.append(a if a == b else [9])                   # __str__ must be format_exc_fileinfo of the three fields
+        ck.count('corr_errfmt_fileinfo')
+        ck.seen(('ef', m, f, ln))
+    vals = [None, '', 'v', 'va"l\n{}']
+    tm = [(t, v) for t in Token for v in vals]
+    got_tm = []
+    got_tx = []
+    tx = []
+    for t, v in tm:
+        tk = Tokenizer('', None)
+        got_tm.append(_enc_opt(lambda: (tk.error(t) if v is None else tk.error(t, v)).mess))
+        ck.count('corr_errfmt_token_messages')
+        for fname in (None, 'f.txt', 'q"q'):
+            for line in (1, 7, 10, 12345):
+                for cls in (Tokenizer, IterTokenizer):
+                    tk2 = cls('' if cls is Tokenizer else [], fname)
+                    tk2.line_num = line
+                    e = _enc_opt(lambda: str(tk2.error(t) if v is None else tk2.error(t, v)))
+                    err = tk2.error(t) if (v is None and e != [0]) else None
+                    if err is not None and (err.line_num != line or err.file != fname or type(err) is not TokenSyntaxError):
+                        e = [9]
+                    if cls is Tokenizer:
+                        tx.append((t, v, fname, line))
+                        got_tx.append(e)
+                    elif e != got_tx[-1]:
+                        got_tx[-1] = [9]
+                    ck.count('corr_errfmt_error_texts')
+    # str-form messages: formatted exactly when arguments are given
+    tk = Tokenizer('', 'n.kv')
+    strform = _enc_opt(lambda: tk.error('a{}b{}', 1, 'x').mess) == [1, *map(ord, 'a1bx')] and _enc_opt(lambda: tk.error('a{}b').mess) == [1, *map(ord, 'a{}b')]
+    s = coq_str
+    exprs = ['map (fun x => hcase (fileinfo_case x)) ' + coq_list(f'({s(m)}, {_opt(f, s)}, {_opt(ln, str)})' for m, f, ln in fi),
+             'map (fun x => hcase (tokmsg_case x)) ' + coq_list(f'({t.value}, {_opt(v, s)})' for t, v in tm),
+             'map (fun x => hcase (tokerr_text_case x)) ' + coq_list(f'({t.value}, {_opt(v, s)}, {_opt(f, s)}, {ln})' for t, v, f, ln in tx)]
+    res = ck.coq_eval(EF_IMPORTS, exprs, name='errfmt', preamble=U.PRE)
+    bad: list[str] = []
+    if res is None:
+        bad.append('model evaluation failed')
+    else:
+        groups = (('format_exc_fileinfo / str(TokenSyntaxError)', 'fileinfo_case', fi, got_fi, res[0],
+                   lambda c: f'({s(c[0])}, {_opt(c[1], s)}, {_opt(c[2], str)})'),
+                  ('error(Token).mess', 'tokmsg_case', tm, got_tm, res[1], lambda c: f'({c[0].value}, {_opt(c[1], s)})'),
+                  ('str(error(Token))', 'tokerr_text_case', tx, got_tx, res[2],
+                   lambda c: f'({c[0].value}, {_opt(c[1], s)}, {_opt(c[2], s)}, {c[3]})'))
+        for what, fn, cases, got, r, lit in groups:
+            mod = [U.parse_int63(x) for x in _split_ints(r)]
+            if len(mod) != len(got):
+                bad.append(f'{what}: {len(mod)} model values for {len(got)} cases')
+                continue
+            for cse, g, m_ in zip(cases, got, mod):
+                if U.hash_list(g) != m_:
+                    def show(x):
+                        return 'raises' if x == [0] else ('<str differs from format_exc_fileinfo / wrong fields or type>' if x == [9] else repr(''.join(map(chr, x[1:]))))
+                    from harness.common import parse_coq_N_list
+                    mv = ck.coq_eval(EF_IMPORTS, [f'{fn} {lit(cse)}'], name='errfmt_locate', preamble=U.PRE)
+                    bad.append(f'{what}{cse!r}: implementation {show(g)}, model {show(parse_coq_N_list(mv[0])) if mv else "?"}')
+                    break
+    if not strform:
+        bad.append("error('a{}b{}', 1, 'x') / error('a{}b'): str messages are not formatted exactly when arguments are given")
+    ok = not bad
+    ck.obligation('correspondence:error_texts', ok,
+                  f'error-text model (pieces regenerated from tokenizer.py) vs the implementation: format_exc_fileinfo and str(TokenSyntaxError) on '
+                  f'{len(fi)} (message, file, line) combinations incl. None / 0 / 10**30; error(Token.X [, value]).mess for all {len(list(Token))} members x '
+                  f'{len(vals)} values; str(error(...)), its line_num / file / type through Tokenizer and IterTokenizer on {len(tx)} cases: '
+                  + ('agree' if ok else '; '.join(bad[:3])))
+    if not ok:
+        ck.tie_broken.append('correspondence error texts vs Text/ErrFmt.v')
+        ck.extra['errfmt_disagreements'] = bad[:10]
+    ck.sample({'error_text_case': {'call': "Tokenizer('', 'f.txt').error(Token.STRING, 'v') at line 7",
+                                   'str': str(Tokenizer('', 'f.txt').error(Token.STRING, 'v')).replace('line 1', 'line 7')}})
+
+
+def premade_oracle(ck: Ck) -> None:
+    """Keyvalues.parse on a tokenizer made by the caller (the `isinstance(file_contents, BaseTokenizer)` path): whatever error type
+    the tokenizer was built with and whether or not a file name is passed, nothing but KeyValError may leave."""
+    from srctools.keyvalues import KeyValError, Keyvalues
+    from srctools.tokenizer import IterTokenizer, Token, Tokenizer, TokenSyntaxError
+
+    class CustomSyntaxError(TokenSyntaxError):
+        pass
+    texts = ['"a', '"a" "b" }', '"a" { "b"', '"a" "b" "c" "d"\n', '"a" "b" [f\n', '"a" "b"\n', '"a"\n{\n"b" "c\\']
+    toks = [[(Token.STRING, 'a'), (Token.BRACE_CLOSE, '}')], [(Token.STRING, 'a'), (Token.NEWLINE, '\n'), (Token.BRACE_OPEN, '{')],
+            [(Token.STRING, 'a'), (Token.STRING, 'b'), (Token.STRING, 'c')], [(Token.EQUALS, '=')], [(Token.STRING, 'a'), (Token.STRING, 'b')]]
+    etypes = [('default', None), ('TokenSyntaxError', TokenSyntaxError), ('subclass', CustomSyntaxError), ('KeyValError', KeyValError)]
+    cases = []
+    for ename, et in etypes:
+        for s in texts:
+            cases.append(('Tokenizer', ename, repr(s), lambda s=s, et=et: Tokenizer(s, 'made.kv', string_bracket=True) if et is None else Tokenizer(s, 'made.kv', et, string_bracket=True)))
+            cases.append(('Tokenizer-chunks', ename, repr(s), lambda s=s, et=et: Tokenizer(list(s), None, string_bracket=True) if et is None else Tokenizer(list(s), None, et, string_bracket=True)))
+        for tl in toks:
+            cases.append(('IterTokenizer', ename, '+'.join(t.name for t, _ in tl), lambda tl=tl, et=et: IterTokenizer(tl) if et is None else IterTokenizer(tl, 'made.kv', et)))
+    for maker, ename, what, mk in cases:
+        for fkw in ({}, {'filename': 'passed.kv'}):
+            ck.count('oracle_kvparse_premade_tokenizer')
+            try:
+                Keyvalues.parse(mk(), **fkw)
+            except KeyValError:
+                pass
+            except BaseException as e:  # noqa: BLE001 - the property says nothing else may escape
+                if not capped('premade'):
+                    ck.violation(f'kvparse-premade-tokenizer:{maker}:error-type-{ename}:{"filename" if fkw else "no-filename"}:{type(e).__name__}',
+                                 f'Keyvalues.parse({maker}({what}, error type {ename}){", filename=..." if fkw else ""}) raised {type(e).__name__}: '
+                                 f'{str(e)[:80]!r} (only KeyValError may escape)',
+                                 {'kind': 'premade', 'maker': maker, 'etype': ename, 'what': what, 'filename': bool(fkw)})
+
+
+def errtext_oracle(ck: Ck) -> None:
+    """Oracle on the implementation alone (runs even when the error-text translator fails closed): error(Token.X [, value]) builds a
+    TokenSyntaxError whose line_num is the tokenizer's, whose text starts with the message and shows that line; formatting never
+    fails."""
+    from srctools.tokenizer import Token, Tokenizer, TokenSyntaxError
+    vals = [None, '', 'v', 'va"l\n{}']
+    tm = [(t, v) for t in Token for v in vals]
+    for t, v in tm:
+        for fname in (None, 'f'):
+            tk = Tokenizer('', fname)
+            tk.line_num = 3
+            try:
+                e = tk.error(t) if v is None else tk.error(t, v)
+                txt = str(e)
+                if not (isinstance(e, TokenSyntaxError) and e.line_num == 3 and txt.startswith(e.mess) and '3' in txt[len(e.mess):]):
+                    raise AssertionError('text')
+            except Exception as ex:  # noqa: BLE001
+                if not capped('errfmt'):
+                    ck.violation(f'error-text:{t.name}:{"value" if v is not None else "novalue"}:{type(ex).__name__}',
+                                 f'Tokenizer("", {fname!r}).error(Token.{t.name}{"" if v is None else ", " + repr(v)}) and its str(): {type(ex).__name__}: {ex} '
+                                 f'(must build a TokenSyntaxError whose text starts with the message and shows line 3)',
+                                 {'kind': 'errtext', 'token': t.value, 'value': v, 'file': fname})
+
+
+
 # ------------------------------------------------------------------------------------------------ oracle on the implementation
 def chunk_oracle(s: str, bits: int, cs: list[str]) -> str | None:
     """Chunked delivery must give the same trace as the single string; nothing but TokenSyntaxError may escape."""
@@ -1081,9 +1444,9 @@ def search(ck: Ck, escalate: bool) -> None:
     res = ck.extra.pop('_oracle_from_corr', None)
     scope = ck.extra.pop('_oracle_scope', None)
     if res is None or (big and scope != (3, 3)):
-        groups = [ALL_BITS[i:i + 8] for i in range(0, 128, 8)] if big else [QUICK_BITS[i:i + 2] for i in range(0, 32, 2)]
-        scope = (3, 3) if big else (3, 2, 'quick')
-        res = [(t[3], t[4]) for t in U.pool_map(_impl_shard, [(g, scope[0], scope[1]) for g in groups], workers=14)]
+        scope = (3, 3) if big else (3, 2)
+        sh = run_shared(ck, scope[0], scope[1])
+        res = sh[3] if sh is not None else [(t[3], t[4]) for t in U.pool_map(_impl_shard, [(g, scope[0], scope[1]) for g in GROUPS8], workers=14)]
     for cnt, bad in res:
         ck.count('oracle_exhaustive_chunked_runs', cnt)
         for kind, s, bits, cs in bad[:3]:
@@ -1092,9 +1455,9 @@ def search(ck: Ck, escalate: bool) -> None:
         if s:
             for g in range(0, 128, 8):      # (text, option group) - an undercount of the distinct (text, options) cases
                 ck.seen(('ox', s, g))
-    ck.hist('oracle', f'all strings <= {scope[0]} over {len(SYN_ALPHA)} symbols x ' + ('128 option vectors' if len(scope) == 2 else
-            '32 option vectors (<= 2: all 128)') + f'; every cut set up to length {scope[1]}, beyond (16 representative option vectors: '
-            f'each option alone on / alone off): finest cut with empty chunks + one other cut set + line split', sum(c for c, _ in res))
+    ck.hist('oracle', f'all strings <= {scope[0]} over {len(SYN_ALPHA)} symbols x 128 option vectors (executed: the vectors that differ in an '
+            f'option the run read); every cut set up to length {scope[1]}, beyond: finest cut with empty chunks + one other cut set + line split',
+            sum(c for c, _ in res))
     # (b) random longer texts: random chunkings, per-character, lines; read bound; EOF for ever
     rng = ck.rng
     m = 20000 if big else 2500
@@ -1146,16 +1509,23 @@ def search(ck: Ck, escalate: bool) -> None:
                              {'kind': 'kvparse-chunks', 'text': [ord(c) for c in small], 'kw': kw})
                 break
     basetok_search(ck, big)
+    errtext_oracle(ck)
+    premade_oracle(ck)
     ck.sample({'oracle_example': {'text': 'a\r\n/*x*/b', 'chunks': ['a\r', '', '\n/*x*', '/b'], 'check': 'same trace as the single string'}})
 
 
 # ------------------------------------------------------------------------------------------------ main
 def _stage(ck: Ck, name: str) -> None:
     """Wall time per stage (evidence only)."""
+    import os
     import time
     now = time.time()
+    tm = os.times()
+    cpu = tm.user + tm.system + tm.children_user + tm.children_system
     ck.extra.setdefault('stage_seconds', {})[name] = round(now - ck.extra.get('_t_last', ck.t0), 1)
+    ck.extra.setdefault('stage_cpu_seconds', {})[name] = round(cpu - ck.extra.get('_cpu_last', 0.0), 1)
     ck.extra['_t_last'] = now
+    ck.extra['_cpu_last'] = cpu
 
 
 def run(ck: Ck) -> None:
@@ -1169,7 +1539,7 @@ def run(ck: Ck) -> None:
     ck.trusted.append('hand-written model Text/Tokenizer.v and Text/Prog.v cnext/cunread (tied by exhaustive small-scope differential runs and the reader-state comparison on every run)')
     ck.trusted.append('harness/c02_util.py checksum mirror of Text/TokEnum.v (63-bit; a collision would hide a disagreement)')
     ck.assumptions.append('the chunk iterable yields str objects (bytes / non-str chunks raise ValueError by design and are outside the property)')
-    ck.assumptions.append('Keyvalues.parse is covered by search only (no model in this check)')
+    ck.assumptions.append('Keyvalues.parse is modelled at exception level only (which exception leaves it); the tree it builds is C01')
     ck.assumptions.append('pure-Python tokenizer only; the Cython twin _tokenizer.pyx cannot be built in this sandbox')
     ok_t = ck.translate('EscTables_gen', c02_tables.translate)
     side = ck.extra.get('translated', {}).get('EscTables_gen', {})
@@ -1178,15 +1548,21 @@ def run(ck: Ck) -> None:
         ck.notes.append('hand-modelled tokenizer functions changed since the model was written: budgets escalated')
     ok_k = ck.translate('KvParseSites_gen', c03_kvparse.translate)
     ok_b = ck.translate('BaseTokSites_gen', c03_basetok.translate)
-    built = ok_t and ok_k and ok_b and ck.build(['Props/C03.vo', 'Text/TokEnum.vo', 'Text/KvErrGen.vo', 'Text/BaseTokEnum.vo'])
+    ok_e = ck.translate('ErrFmt_gen', c03_errfmt.translate)
+    if not ok_e:            # keep everything else alive: an all-"raises" configuration; its obligations and correspondence are skipped
+        ck.gen('ErrFmt_gen', c03_errfmt.EMPTY_GEN, {'failed_closed': True})
+    ok_h = ck.translate('HsRows_gen', c02_hstring.translate)      # _handle_string is part of the chunk-independence model as well
+    if not ok_h:
+        ck.gen('HsRows_gen', c02_hstring.EMPTY_GEN, {'failed_closed': True})
+    built = ok_t and ok_k and ok_b and ck.build(['Props/C03.vo', 'Text/TokEnum.vo', 'Text/KvErrGen.vo', 'Text/BaseTokEnum.vo', 'Text/ErrFmtGen.vo'])
     if built:
-        ck.theorems('Props/C03.v')
-        ck.instance_obligations(U.IMPORTS + ['SV.Text.TokenizerProofs'], {
+        started = start_exhaustive_model(ck)
+        th = U.theorems_in_background(ck, 'Props/C03.v')
+        U.instance_obligations_parallel(ck, [(U.IMPORTS + ['SV.Text.TokenizerProofs'], {
             'EOF_is_not_an_operator_token': 'ops_no_eof gen_tables',
             'token_enum_values_distinct': 'token_values_distinct',
             'operators_name_known_tokens': 'operators_all_known',
-        })
-        ck.instance_obligations(KV_IMPORTS, {
+        }, 'inst'), (KV_IMPORTS, {
             'keyvalues_parse_every_modelled_site_guarded': 'kv_sites_all_guarded',
             'read_flag_leading_bang_test_cannot_raise': 'bang_total gen_kcfg',
             'flag_replace_test_block_only_indexes_nonempty_list': 'guard_replace_block gen_kcfg',
@@ -1198,16 +1574,30 @@ def run(ck: Ck) -> None:
             'error_messages_format_with_the_arguments_passed': 'error_formats_ok',
             'tokenizer_every_indexing_site_guarded': 'tokenizer_sites_all_guarded',
             'tokenizer_every_raise_goes_through_self_error': 'tokenizer_raises_only_through_error',
+            'tokenizer_sees_chunks_only_through_next_char': 'tokenizer_sees_chunks_only_through_next_char',
+            'tokenizer_pushes_back_only_after_a_read': 'tokenizer_pushes_back_only_after_a_read',
             'keyvalues_parse_raises_only_KeyValError': 'kvparse_raises_only_keyvalerror',
-        }, name='kvinst')
-        ck.instance_obligations(BT_IMPORTS, {
+            'keyvalues_parse_installs_KeyValError_on_the_tokenizer_on_every_path': 'kvparse_tokenizer_errors_are_keyvalerror',
+        }, 'kvinst'), (BT_IMPORTS, {
             'pushback_list_is_a_stack_LIFO': 'pushback_is_lifo',
             'error_of_a_token_covers_every_member': 'error_covers_every_token',
             'push_back_of_an_operator_redelivers_what_the_tokenizer_delivers': 'operator_vals_match_tokenizer',
             'push_back_keeps_the_value_of_value_tokens': 'value_tokens_keep_their_value',
-        }, name='btinst')
+        }, 'btinst')] + ([] if not ok_e else [(EF_IMPORTS + ['SV.Gen.ErrFmt_gen'], {
+            'format_exc_fileinfo_never_raises': 'fileinfo_never_raises',
+            'error_text_starts_with_the_message': 'fileinfo_starts_with_the_message',
+            'error_text_is_the_message_without_file_and_line': 'fileinfo_is_the_message_without_file_and_line',
+            'error_text_shows_the_line_number': 'fileinfo_shows_the_line',
+            'error_text_shows_the_file_name': 'fileinfo_shows_the_file',
+            'error_text_pieces_wellformed': 'fileinfo_pieces_wellformed',
+            'error_builds_a_message_for_every_token_with_and_without_value': 'every_token_has_a_message',
+            'token_messages_consist_of_text_and_the_value': 'token_messages_wellformed',
+            'error_passes_message_filename_line_num_to_error_type': 'gen_error_ctor_ok',
+            'error_formats_str_messages_exactly_when_arguments_are_given': 'gen_error_str_form_ok',
+            'error_refuses_a_token_with_two_values': 'gen_error_two_values_refused',
+        }, 'efinst')]))
         _stage(ck, 'translate+build+theorems+instances')
-        corr_exhaustive(ck, escalate)
+        corr_exhaustive(ck, escalate, started)
         _stage(ck, 'corr_exhaustive')
         corr_random(ck, escalate)
         _stage(ck, 'corr_random')
@@ -1215,9 +1605,14 @@ def run(ck: Ck) -> None:
         _stage(ck, 'corr_kvparse')
         corr_basetok(ck, escalate)
         _stage(ck, 'corr_basetok')
+        if ok_e:
+            corr_errfmt(ck)
+        _stage(ck, 'corr_errfmt')
+        U.join_theorems(ck, th)
     search(ck, escalate)
     _stage(ck, 'search')
     ck.extra.pop('_t_last', None)
+    ck.extra.pop('_cpu_last', None)
     if ck.violations:
         ck.explain('instance:')
         ck.explain('correspondence:')
@@ -1237,6 +1632,33 @@ def replay(data: dict) -> int:
             print(f' model (parser model as configured by the last ./check run): {kv_name(int(mv[0].split("%")[0]))}')
         print('VIOLATED' if c >= 300 else 'property holds on this input')
         return 1 if c >= 300 else 0
+    if r.get('kind') == 'premade':
+        class _Ck:                      # run the oracle alone and show what it reports
+            violations: list = []
+            def count(self, *_a): pass
+            def violation(self, key, what, _r): self.violations.append((key, what))
+        _REPORTED.clear()
+        fake = _Ck()
+        premade_oracle(fake)            # type: ignore[arg-type]
+        for key, what in fake.violations:
+            print(key, '::', what)
+        print('VIOLATED' if fake.violations else 'property holds on this input')
+        return 1 if fake.violations else 0
+    if r.get('kind') == 'errtext':
+        from srctools.tokenizer import Token, Tokenizer, TokenSyntaxError
+        tk = Tokenizer('', r.get('file'))
+        tk.line_num = 3
+        t, v = Token(r['token']), r.get('value')
+        try:
+            e = tk.error(t) if v is None else tk.error(t, v)
+            txt = str(e)
+            good = isinstance(e, TokenSyntaxError) and e.line_num == 3 and txt.startswith(e.mess) and '3' in txt[len(e.mess):]
+            print(f'error({t}, {v!r}) -> {e!r}\n str: {txt!r}')
+        except Exception as ex:  # noqa: BLE001
+            good = False
+            print(f'error({t}, {v!r}) raised {type(ex).__name__}: {ex}')
+        print('property holds on this input' if good else 'VIOLATED')
+        return 0 if good else 1
     if r.get('kind') == 'basetok':
         s = ''.join(map(chr, r['text']))
         res = basetok_delivery(s, r['bits'], r['plan'])
